@@ -144,6 +144,7 @@ def make(typ, c, X, flag, **kw):
 
 _MP_SHAPE = [None]
 _EPS_TRUNC = [None]
+_ATOL_AT_CALL = [None]     # global Settings atol changed AFTER the objects / closures were built, for the duration of the call
 _HOSTS = {}
 
 
@@ -486,7 +487,10 @@ def call_site(typ, c, which, site, flag, x, m, tap=False):
             def run():
                 return np.array(f(var), dtype=np.float64)
         after = lambda: var.copy()
+    atol0 = Settings.get_atol()
     try:
+        if _ATOL_AT_CALL[0] is not None:
+            Settings.set_atol(float(_ATOL_AT_CALL[0]))
         if tap:
             with EighTap() as t:
                 res = run()
@@ -497,6 +501,8 @@ def call_site(typ, c, which, site, flag, x, m, tap=False):
     except Exception as e:  # noqa
         out["err"] = err_kind(e)
         out["msg"] = str(e)[:200]
+    finally:
+        Settings.set_atol(atol0)
     out["arg_before"] = before
     out["arg_after"] = after()
     return out
@@ -690,6 +696,8 @@ def rand_feasible_ineq(g, typ, kind, m, scale):
 
 def imag_sig(which, typ, site, bucket):
     """default threshold: one signature per type (finding D13); non-default `eps_truncate_imaginary_part`: per entry point"""
+    if _ATOL_AT_CALL[0] is not None:
+        return f"C04/{which}/{typ}/{site_base(site)}/raises-imag/atol-set-after-construction-{_ATOL_AT_CALL[0]:g}/scale-{bucket}"
     if _EPS_TRUNC[0] is None:
         return f"C04/{which}/{typ}/raises-imag/scale-{bucket}"
     return f"C04/{which}/{typ}/{site_base(site)}/raises-imag/eps_truncate_imaginary_part-{_EPS_TRUNC[0]:g}/scale-{bucket}"
@@ -915,6 +923,44 @@ def nondefault_eps(ctx, volume=1):
                     check_point(ctx, g, "ineq", typ, kind, m, x, scale, "random", 2, extra={"eps_trunc": 1e-8})
     finally:
         _EPS_TRUNC[0] = None
+    # the global `Settings.set_atol` changed after construction must be honoured as well (objects keep `None` = "current atol")
+    _ATOL_AT_CALL[0] = 1e-8
+    try:
+        for typ, kind, m in (("State", "q", 1), ("Povm", "q", 3), ("Gate", "q", 1), ("MProcess", "q", 2)):
+            for _ in range(volume):
+                x = gen_param(g, typ, kind, m, 1024.0, "random")
+                ctx.count(f"oracle atol set after construction {typ} {kind} scale=1e3")
+                check_point(ctx, g, "ineq", typ, kind, m, x, 1024.0, "random", 2, extra={"atol_at_call": 1e-8})
+    finally:
+        _ATOL_AT_CALL[0] = None
+    derived_objects(ctx, g, volume)
+
+
+def derived_objects(ctx, g, volume=1):
+    """objects obtained from others by `+`, `-`, `*`, `/`, `copy()`: they must carry the configuration of their operands (here the
+    non-default `eps_truncate_imaginary_part`), so that their projections behave like those of a directly constructed object"""
+    for typ, kind, m in (("State", "q", 1), ("Povm", "q", 2), ("Gate", "q", 1), ("MProcess", "q", 2)):
+        c, _ = system(kind)
+        for _ in range(volume):
+            x = gen_param(g, typ, kind, m, 1024.0, "random")
+            y = gen_param(g, typ, kind, m, 1024.0, "random")
+            kw = dict(eps_truncate_imaginary_part=1e-8)
+            a, b = make(typ, c, x, False, **kw), make(typ, c, y, False, **kw)
+            for nm, build, val in (("add", lambda: a + b, x + y), ("sub", lambda: a - b, x - y), ("mul", lambda: a * 0.5, x * 0.5),
+                                   ("div", lambda: a / 2.0, x / 2.0), ("copy", lambda: a.copy(), x)):
+                rep = {"which": "ineq", "typ": typ, "system": kind, "m": m, "x": x.tolist(), "y": y.tolist(), "kind": "derived", "op": nm}
+                ctx.case(("oracle", "derived", typ, nm, tuple(x.tolist())))
+                try:
+                    o = build()
+                    if o.eps_truncate_imaginary_part != 1e-8:
+                        ctx.violate(f"C04/ineq/{typ}/derived-{nm}/option-dropped",
+                                    f"`{nm}` of {typ}s built with eps_truncate_imaginary_part=1e-8 carries {o.eps_truncate_imaginary_part}", rep)
+                    r = stacked(o.calc_proj_ineq_constraint())
+                except Exception as e:  # noqa
+                    ctx.violate(f"C04/ineq/{typ}/derived-{nm}/raises", f"{type(e).__name__}: {str(e)[:100]}", rep); continue
+                ref = ineq_ref(typ, kind, val)
+                if np.max(np.abs(r - ref)) > 1e-8 * max(1.0, float(np.max(np.abs(val)))):
+                    ctx.violate(f"C04/ineq/{typ}/derived-{nm}/not-nearest", f"differs from the reference by {np.max(np.abs(r - ref)):.3g}", rep)
 
 
 def aliased_elements(ctx, volume=1):
@@ -1020,17 +1066,22 @@ def replay(ctx, data):
         mprocess_shapes(ctx)
     elif r.get("kind") == "aliased":
         aliased_elements(ctx)
+    elif r.get("kind") == "derived":
+        derived_objects(ctx, ctx.npgen(13))
+        nondefault_eps(ctx)
     else:
         _EPS_TRUNC[0] = r.get("eps_trunc")
+        _ATOL_AT_CALL[0] = r.get("atol_at_call")
         warm_siblings(r["system"])
         _MP_SHAPE[0] = tuple(r["shape"]) if r.get("shape") else None
         try:
             check_point(ctx, ctx.npgen(1), r["which"], r["typ"], r["system"], r["m"], np.array(r["x"], dtype=float), r.get("scale", 1.0),
                         r.get("class", "random"), 8,
-                        extra={k: r[k] for k in ("shape", "eps_trunc") if r.get(k) is not None} or None)
+                        extra={k: r[k] for k in ("shape", "eps_trunc", "atol_at_call") if r.get(k) is not None} or None)
         finally:
             _MP_SHAPE[0] = None
             _EPS_TRUNC[0] = None
+            _ATOL_AT_CALL[0] = None
     for v in ctx.violations[before:]:
         print(" ", v["signature"], "--", v["what"])
     hit = [v for v in ctx.violations[before:] if v["signature"] == data.get("signature")]
